@@ -108,6 +108,9 @@ func genRelWorld(r *Rng, prop string, tweak func(c *GenCfg)) *World {
 	c.PPT = 0
 	tweak(&c)
 	root := GenNode(r, &c, 0, true)
+	if prop == "C09" {
+		AddEmptyZogTag(r, root, 0.12)
+	}
 	w.Schemas = []*Node{root}
 	no := 1 + r.Intn(3)
 	var ops []Op
@@ -122,7 +125,7 @@ func genRelWorld(r *Rng, prop string, tweak func(c *GenCfg)) *World {
 			if missing {
 				v = VNil()
 			}
-			op.Input = v
+			op.Input = NonEmptyRecords(root, v)
 		}
 		ops = append(ops, op)
 	}
@@ -160,6 +163,28 @@ func genC05(r *Rng, tier string) *World {
 			}
 		}
 	})
+	// a catching node's test may report under another path (z.IssuePath): still this node's failure, still caught
+	// (only where the node has one instance per call: below a slice the shared path would not say which element failed)
+	redir := 0
+	var mark func(n *Node)
+	mark = func(n *Node) {
+		if n == nil || n.Kind == "slice" {
+			return
+		}
+		if n.IsPrim() && n.Catch != nil {
+			for i := range n.Tests {
+				if n.Tests[i].Path == "" && r.P(0.15) {
+					redir++
+					n.Tests[i].Path = "elsewhere" + strconv.Itoa(redir)
+				}
+			}
+		}
+		for _, f := range n.Fields {
+			mark(f.N)
+		}
+		mark(n.Elem)
+	}
+	mark(w.Schemas[0])
 	// drop value-dependent container tests: they legitimately differ between S and S'
 	w.Schemas[0].Walk(func(n *Node) {
 		if n.Kind == "slice" {
@@ -256,8 +281,22 @@ func runC05(x *X) *Violation {
 				return &Violation{Class: fmt.Sprintf("C05/catching-node-reported-issue kind=%s place=%s mode=%s", in.n.Kind, place, op.Kind),
 					Detail: fmt.Sprintf("node with Catch at %q contributed %v", p, ia[p])}
 			}
+			failedElsewhere := false
+			for _, t := range in.n.Tests {
+				if t.Path == "" {
+					continue
+				}
+				catchPaths[t.Path] = true
+				if len(ia[t.Path]) > 0 {
+					return &Violation{Class: fmt.Sprintf("C05/catching-node-reported-issue kind=%s place=%s mode=%s", in.n.Kind, place, op.Kind),
+						Detail: fmt.Sprintf("node with Catch at %q contributed %v under its test's IssuePath %q", p, ia[t.Path], t.Path)}
+				}
+				if len(ib[t.Path]) > 0 {
+					failedElsewhere = true
+				}
+			}
 			got := destToModel(in.n, in.v)
-			if len(ib[p]) > 0 {
+			if len(ib[p]) > 0 || failedElsewhere {
 				fired++
 				want := typedVal(in.n, *in.n.Catch)
 				if !modelEqual(got, want) {
@@ -339,6 +378,7 @@ func genC09(r *Rng, tier string) *World {
 	w.Params = map[string]int{"perms": 2 + r.Intn(5)}
 	return w
 }
+
 
 func runC09(x *X) *Violation {
 	w := x.W
@@ -565,10 +605,61 @@ func genC13(r *Rng, tier string) *World {
 	return w
 }
 
+// aliasEqualPointers makes pointers of one type that hold equal values share one pointee (a value in which the same
+// object is reachable twice is as valid a Go value as any).
+func aliasEqualPointers(root reflect.Value) int {
+	var ptrs []reflect.Value
+	var walk func(v reflect.Value)
+	walk = func(v reflect.Value) {
+		switch v.Kind() {
+		case reflect.Ptr:
+			if !v.IsNil() {
+				if v.CanSet() {
+					ptrs = append(ptrs, v)
+				}
+				walk(v.Elem())
+			}
+		case reflect.Struct:
+			if v.Type() == timeType {
+				return
+			}
+			for i := 0; i < v.NumField(); i++ {
+				walk(v.Field(i))
+			}
+		case reflect.Slice:
+			for i := 0; i < v.Len(); i++ {
+				walk(v.Index(i))
+			}
+		}
+	}
+	walk(root)
+	n := 0
+	for i := 1; i < len(ptrs); i++ {
+		for j := 0; j < i; j++ {
+			if ptrs[i].Type() == ptrs[j].Type() && ptrs[i].Pointer() != ptrs[j].Pointer() &&
+				reflect.DeepEqual(ptrs[i].Elem().Interface(), ptrs[j].Elem().Interface()) {
+				ptrs[i].Set(ptrs[j])
+				n++
+				break
+			}
+		}
+	}
+	return n
+}
+
 func runC13(x *X) *Violation {
 	w := x.W
 	x.BuildSchemas()
 	n := x.Built[0].N
+	if !hasStatefulMods(n) {
+		// nothing rewrites values in place: the same object may then be reachable through several pointers
+		x.destHook = func(dest reflect.Value, data any) {
+			if data == nil {
+				x.Probes["aliased_pointers"] += int64(aliasEqualPointers(dest.Elem()))
+			}
+		}
+		defer func() { x.destHook = nil }()
+	}
 	x.FreshRun("v/")
 	for i := range w.Tasks[0] {
 		op := w.Tasks[0][i]
